@@ -10,3 +10,18 @@ CLAIMS["C08"] = dict(
     note="Time is advanced by back-dating stored registration times to age classes around the 10 min / 6 h limits (+-2 s); "
          "sweeps run to completion (interleavings are C09); TLC bounds as stated in the cfg files.",
 )
+CLAIMS["C09"] = dict(
+    category="model_checking",
+    technique="TLA+ specs Ingest.tla + Pipeline.tla: TLC exhaustive (serialisability, liveness) + replay of every enumerated interleaving into the real code through verifhook.Yield gates + trace validation of HandleRegUpdates + race-detector conformance of the atomicity assumption",
+    text="Ingest.tla models workers, sweeper and connection handler with one action per lock-protected section; TLC checks that "
+         "every terminal outcome equals some serial order's outcome (SerialOutcomes computed in TLA+), VisibleOnlyAfterValidate, "
+         "AnnounceOnce, ShareOnce, NoCrash and termination for 8 (quick) / 10 (thorough) scenarios. Every maximal interleaving "
+         "(2 245 quick) is replayed on the real ingestRegistration/removeOldRegistrations/lookup+MarkActive with a deterministic "
+         "scheduler at the Yield gates, state compared after every step and real final outcomes checked against the serial set. "
+         "Pipeline.tla (distributor, buffer, workers, cancel) is checked for DropsCounted/NeverBlocksReceiver/ShutdownBounded and "
+         "bound by validating overload+shutdown event logs of the real HandleRegUpdates. A -race stress checks the spec's "
+         "atomicity assumption.",
+    note="Interleavings are enumerated at lock-release points only (the race detector run is what justifies treating locked "
+         "sections as atomic); a registration is assumed not to expire while its own ingest is in progress; one sweeper. "
+         "Known finding H-C09-2 (unsynchronised OnReload publication) is listed in known_findings.json.",
+)
